@@ -24,6 +24,7 @@ RULE = (
     "and alternative proteins disagree in prefix; distinct = (seed,index,rep)."
     " Every third document: a call with exclude_features in between, then the default call again must return the identical table."
     " A fifth of the documents use scan numbers in the upper half of the unsigned 32-bit range."
+    " reject also hands a non-PepXML XML or text file over before, after and between valid PepXML files."
 )
 ASSUMPTIONS = [
     "column names of the returned frame (scan, charge, ret_time, exp_mass, calc_mass, ms_data_file, peptide, "
@@ -282,7 +283,8 @@ def run_reject(case):
     types = {}
     with core.scratch("c20r") as d:
         for rep in range(case["reps"]):
-            kind = ["percolator", "text", "truncated", "foreign_xml", "percolator_second_file"][rep % 5]
+            kind = ["percolator", "text", "truncated", "foreign_xml", "percolator_second_file", "foreign_xml_after_valid",
+                    "foreign_xml_before_valid", "text_among_valid"][rep % 8]
             text, rows, _ = gen_doc(rng, "decoy_", 0)
             paths = [d / f"r{rep}.pep.xml"]
             if kind == "percolator":
@@ -294,11 +296,25 @@ def run_reject(case):
                 text = text[: int(len(text) * rng.uniform(0.2, 0.9))]
             elif kind == "foreign_xml":
                 text = '<?xml version="1.0"?>\n<mzML><run id="x"><spectrum index="0"/></run></mzML>\n'
+            elif kind in ("foreign_xml_after_valid", "foreign_xml_before_valid", "text_among_valid"):
+                # a file that is not PepXML handed over together with genuine PepXML files
+                other = d / f"r{rep}_other.xml"
+                other.write_text('<?xml version="1.0"?>\n<protein_summary><protein_group group_number="1"/></protein_summary>\n'
+                                 if kind != "text_among_valid" else "SpecId\tLabel\nx\t1\n")
+                paths = [paths[0], other] if kind != "foreign_xml_before_valid" else [other, paths[0]]
+                if kind == "text_among_valid":
+                    t3, _, _ = gen_doc(rng, "decoy_", 1)
+                    third = d / f"r{rep}_c.pep.xml"
+                    third.write_text(t3)
+                    paths.append(third)
+                first_valid = [p_ for p_ in paths if p_ != other][0]
+                first_valid.write_text(text)
             elif kind == "percolator_second_file":
                 paths.append(d / f"r{rep}b.pep.xml")
                 t2 = text.replace("</search_hit>", '<search_score name="Percolator PEP" value="0.5"/></search_hit>')
                 paths[1].write_text(t2)
-            paths[0].write_text(text)
+            if not kind.endswith("_valid"):
+                paths[0].write_text(text)
             arg = [str(p) for p in paths] if len(paths) > 1 else str(paths[0])
             c = core.Call(mokapot.read_pepxml, arg, to_df=True)
             evals += 1
